@@ -903,6 +903,47 @@ def rule_synth(ctx, rep, rid="R-C05-synth"):
                     r.ok(inst, where)
 
 
+def rule_doclabel(ctx, rep, rid="R-C05-doclabel"):
+    """A problem can have labels in several files (a duplicate declaration: one label on each).  The language server publishes the problems
+    of one document; the range it publishes must be the range of a label *in that document*.  So the function that turns a problem into an
+    lsp_types::Diagnostic selects the label by the document's file id: it compares a label's file_id with a FileId it was given.  A
+    conversion that always takes the primary label publishes, for the document with the secondary label, a position inside another file."""
+    r = rep.rule(rid, "the function that converts a problem for a document (builds lsp_types::Diagnostic) chooses the label by comparing Label.file_id with the document's FileId "
+                      "before it computes the range", floor=1, floor_what="problem-to-LSP conversions")
+    n = 0
+    for b in sorted(ctx.prog.bodies.values(), key=lambda x: x.id):
+        if b.f["crate"] != "ironplcc" or "::test" in norm(b.id) or b.f["dk"] == "Closure":
+            continue
+        builds = any(st[0] == "=" and st[2][0] == "agg" and isinstance(st[2][1], dict) and st[2][1].get("adt") == "lsp_types::Diagnostic" for _, _, st in b.all_stmts())
+        if not builds:
+            continue
+        n += 1
+        fn = norm(b.id).replace("ironplcc::", "")
+        where = "%s:%d" % (b.f["file"], b.f["line"])
+        unit = [b] + [cb for cb in ctx.prog.bodies.values() if cb.f.get("parent") == b.id]
+        has_id_param = any("ironplc_dsl::core::FileId" in (b.local_ty(l) or "") for l in range(1, b.f["argc"] + 1))
+        compares = False
+        for bd in unit:
+            for c in bd.calls():
+                u = c.u or c.callee or ""
+                if not (u.endswith("PartialEq::eq") or u.endswith("PartialEq::ne")) or "FileId" not in (c.ga or ""):
+                    continue
+                for a in c.args:
+                    p = op_place(a)
+                    if p is None:
+                        continue
+                    rt = bd.root(p)
+                    if any(isinstance(x, list) and x[0] == "f" and x[2] == "file_id" and (x[3] or "").endswith("diagnostic::Label") for x in rt[1]):
+                        compares = True
+        if has_id_param and compares:
+            r.ok(fn, where, "label chosen by the document's file id")
+        else:
+            r.finding(fn + "|label-not-chosen-by-document", where, "the conversion does not know which document the problem is published for (%s): it publishes the primary label's range even "
+                      "when that label is in another file" % ("no FileId parameter" if not has_id_param else "no comparison of a label's file id with it"))
+    if not n:
+        rep.error(rid, "no function of ironplcc builds an lsp_types::Diagnostic")
+
+
 def panics_int(b, op):
     from rules import panics
     return panics._int_const(b, op)
@@ -1224,6 +1265,7 @@ def run(ctx, rep):
     rule_fileidx(ctx, rep)
     rule_display(ctx, rep)
     rule_synth(ctx, rep)
+    rule_doclabel(ctx, rep)
     from rules.c15 import rule_verbatim
     rule_verbatim(ctx, rep, rid="R-C05-verbatim")
     from rules import c05_blank, c05_joinorder
